@@ -6,11 +6,11 @@ cd $WT || exit 2
 git diff --quiet && { echo "NO CHANGE APPLIED"; exit 2; }
 go build ./... || { echo "BUILD FAILS"; exit 1; }
 if go test -vet=off -count=1 ./... 2>&1 | grep -E "^(FAIL|---FAIL|panic)" ; then echo "SUITE FAILS"; exit 1; fi
-timeout 600 sh _seed/run.sh >/tmp/$(basename $WT).with.out 2>&1; A=$?
+timeout 900 bash _seed/run.sh >/tmp/$(basename $WT).with.out 2>&1; A=$?
 # (git stash is shared between worktrees of one repository: never use it here)
 git diff > /tmp/$(basename $WT).change.diff
 git checkout -- .
-timeout 600 sh _seed/run.sh >/tmp/$(basename $WT).without.out 2>&1; B=$?
+timeout 900 bash _seed/run.sh >/tmp/$(basename $WT).without.out 2>&1; B=$?
 git apply /tmp/$(basename $WT).change.diff
 echo "$(basename $WT): demo with change rc=$A, without rc=$B"
 [ $A -ne 0 ] && [ $B -eq 0 ] && echo CONFIRMED
